@@ -696,7 +696,13 @@ namespace cgi {
 					else
 						escaped_path += *p;
 				}
-				env_path_info_ = pool_.add(util::urldecode(escaped_path));
+				std::string decoded_path = util::urldecode(escaped_path);
+				if(decoded_path.find('\0')!=std::string::npos) {
+					// CGI variables are C strings: %00 would cut the path short behind the peer's back
+					error_response("HTTP/1.0 400 Bad Request\r\n\r\n",h);
+					return;
+				}
+				env_path_info_ = pool_.add(decoded_path);
 			}
 			env_.add("PATH_INFO",env_path_info_); 
 
